@@ -159,7 +159,13 @@ def execute(case):
         _write_source(case, datas, os.path.join(tmp, src))
         if target == "bin":
             labels.append("to_bin")
-            res = driver.run_cli("file_util.py", [src, "--to_bin", "out.bin"], cwd=tmp)
+            bin_argv = [src, "--to_bin", "out.bin"]
+            if len(files) >= 2 and case["select"] == "subset":
+                # naming one file does not change what the image holds: more than one file, so --to_bin refuses
+                bin_argv += ["--files", {"upper": str.upper, "lower": str.lower, "as_is": str, "swap": str.swapcase}[case["sel_case"]](
+                    files[case["sel_mask"] % len(files)]["name"])]
+                labels.append("to_bin_with_files")
+            res = driver.run_cli("file_util.py", bin_argv, cwd=tmp)
             outp = os.path.join(tmp, "out.bin")
             if "Traceback" in res.stderr:
                 return viol("file_util.py --to_bin crashed: {}".format(res.stderr[-200:]), fid="C16:crash", labels=labels)
